@@ -188,8 +188,14 @@ class InterruptedWrite:
     def __enter__(self):
         inj = self
 
+        def hit(path):
+            if inj.target == "codelimit.json":
+                # the report document, under whatever name the implementation writes it (directly, or a temp file renamed afterwards)
+                return path.parent.name == ".codelimit_cache" and path.name not in ("CACHEDIR.TAG", ".gitignore")
+            return path.name == inj.target
+
         def write_text(self_, data, *a, **kw):
-            if self_.name == inj.target and not inj.fired:
+            if hit(self_) and not inj.fired:
                 inj.fired = True
                 if inj.k is not None:
                     with open(self_, "w") as f:
